@@ -151,3 +151,7 @@ PROPERTY = Property(
          "distinct by SHA-1 of the case",
     assumptions=["'identical' is read as bit-identical (mu, sigma) for every player"],
 )
+
+from vf import opt as _opt  # noqa: E402
+
+PROPERTY.clauses.append(_opt.optimised("C15", next(c for c in PROPERTY.clauses if c.name == "percall-vs-model-level"), quick=64, thorough=640))
